@@ -1,3 +1,380 @@
 package main
 
-func cmdCheck(args []string) int { return 2 }
+// Check framework: obligations accounting, known findings, native replay, evidence, exit codes.
+
+import (
+	"encoding/json"
+	"fmt"
+	"os"
+	"path/filepath"
+	"runtime"
+	"sort"
+	"strconv"
+	"strings"
+	"time"
+)
+
+type oblStat struct{ Proved, Failed, Unknown int }
+
+type Violation struct {
+	Label   string
+	Case    string
+	Job     Job
+	Model   map[string]ModelVal
+	Choices map[string]int
+	Panic   bool
+	Why     string
+}
+
+type KnownFinding struct {
+	Property string `json:"property"`
+	Kind     string `json:"kind"` // finding | fixed
+	Label    string `json:"label"`
+	Case     string `json:"case,omitempty"` // substring that must occur in the case key ("" = any)
+	What     string `json:"what"`
+	Commit   string `json:"commit,omitempty"`
+}
+
+type CheckRun struct {
+	ID, Tier string
+	Seed     int
+	Level    string
+	P        *Program
+	Pool     *Pool
+	owner    func(label string) bool
+	obl      map[string]*oblStat
+	fails    []Violation
+	inconcl  []string
+	samples  []interface{}
+	extra    map[string]interface{}
+	assume   []string
+	trusted  []string
+	start    time.Time
+	known    []KnownFinding
+	states   int
+	trans    int
+	validated int
+	exhaustive bool
+	explanation string
+	bounds   map[string]interface{}
+	replayBudget int
+}
+
+func loadKnown() []KnownFinding {
+	b, err := os.ReadFile(filepath.Join(verifDir, "known_findings.json"))
+	if err != nil {
+		return nil
+	}
+	var k struct {
+		Findings []KnownFinding `json:"findings"`
+	}
+	if json.Unmarshal(b, &k) != nil {
+		return nil
+	}
+	return k.Findings
+}
+
+func (cr *CheckRun) note(s string) {
+	for _, x := range cr.inconcl {
+		if x == s {
+			return
+		}
+	}
+	cr.inconcl = append(cr.inconcl, s)
+}
+
+// absorb accounts the results of a batch of jobs.
+func (cr *CheckRun) absorb(jobs []Job, res []*JobResult) {
+	for i, jr := range res {
+		j := jobs[i]
+		if jr.Truncated {
+			cr.note("path budget exhausted in " + j.Fn + " " + j.Tag)
+		}
+		for _, e := range jr.SolverErr {
+			cr.note("solver error: " + e)
+		}
+		for _, p := range jr.Paths {
+			switch p.Status {
+			case "unsupported", "inconclusive":
+				cr.note(p.Status + ": " + p.Why + " [" + j.Fn + " " + j.Tag + "]")
+			case "panic":
+				if cr.owner("nopanic") {
+					cr.fails = append(cr.fails, Violation{Label: "nopanic", Case: j.Tag, Job: j, Model: p.PanicModel, Choices: p.Choices, Panic: true, Why: p.Why})
+					cr.stat("nopanic").Failed++
+				} else {
+					cr.note("panic on a feasible path (owned by C18): " + p.Why + " [" + j.Fn + " " + j.Tag + "]")
+				}
+			}
+			if p.Inconclusive && p.Status == "ok" {
+				cr.note("inconclusive path in " + j.Fn + " " + j.Tag + ": " + strings.Join(p.Notes, "; "))
+			}
+			for _, a := range p.Asserts {
+				if !cr.owner(a.Label) {
+					continue
+				}
+				st := cr.stat(a.Label)
+				switch a.Verdict {
+				case "proved":
+					st.Proved++
+				case "failed":
+					st.Failed++
+					cr.fails = append(cr.fails, Violation{Label: a.Label, Case: j.Tag, Job: j, Model: a.Model, Choices: a.Choices})
+				default:
+					st.Unknown++
+					cr.note("solver unknown on obligation " + a.Label + " [" + j.Tag + "]")
+				}
+			}
+		}
+	}
+}
+
+func (cr *CheckRun) stat(l string) *oblStat {
+	s := cr.obl[l]
+	if s == nil {
+		s = &oblStat{}
+		cr.obl[l] = s
+	}
+	return s
+}
+
+func (cr *CheckRun) matchKnown(v Violation) *KnownFinding {
+	for i := range cr.known {
+		k := &cr.known[i]
+		if k.Property != cr.ID || k.Kind != "finding" {
+			continue
+		}
+		if k.Label != v.Label {
+			continue
+		}
+		if k.Case != "" && !strings.Contains(v.Case, k.Case) {
+			continue
+		}
+		return k
+	}
+	return nil
+}
+
+// finish replays failures, prints verdict lines, writes evidence, returns the exit code.
+func (cr *CheckRun) finish() int {
+	// group failures by (label, case)
+	type grp struct {
+		key string
+		vs  []Violation
+	}
+	groups := map[string]*grp{}
+	var order []string
+	for _, v := range cr.fails {
+		k := v.Label + " @ " + v.Case
+		g := groups[k]
+		if g == nil {
+			g = &grp{key: k}
+			groups[k] = g
+			order = append(order, k)
+		}
+		g.vs = append(g.vs, v)
+	}
+	sort.Strings(order)
+	violations := 0
+	knownMatched := map[string]int{}
+	var knownLines []string
+	seq := 0
+	replayed := 0
+	for _, k := range order {
+		g := groups[k]
+		v := g.vs[0]
+		kf := cr.matchKnown(v)
+		// replay (bounded number per run); known findings are re-confirmed too, but only once per finding entry
+		doReplay := true
+		if kf != nil && knownMatched[kf.Label+"|"+kf.Case] > 0 {
+			doReplay = false
+		}
+		if replayed >= cr.replayBudget {
+			doReplay = false
+		}
+		reproduced := false
+		dir := ""
+		if doReplay {
+			seq++
+			replayed++
+			rr := Replay(cr.P, ReplaySpec{Property: cr.ID, Pkg: v.Job.Pkg, Fn: v.Job.Fn, Label: v.Label, Panic: v.Panic,
+				Params: v.Job.Params, Model: v.Model, Choices: v.Choices}, seq)
+			reproduced = rr.Reproduced
+			dir = rr.Dir
+			cr.validated++
+			if !reproduced {
+				tail := rr.Output
+				if len(tail) > 600 {
+					tail = tail[len(tail)-600:]
+				}
+				cr.note("counterexample for " + k + " did not reproduce natively (encoding/stub mismatch): " + tail)
+				continue
+			}
+		}
+		if kf != nil {
+			knownMatched[kf.Label+"|"+kf.Case]++
+			if knownMatched[kf.Label+"|"+kf.Case] == 1 {
+				knownLines = append(knownLines, fmt.Sprintf("KNOWN-FINDING: property=%s %s", cr.ID, kf.What))
+			}
+			continue
+		}
+		if !doReplay {
+			// over the replay budget: report as violation only if an identical-label group was already confirmed
+			cr.note("violation candidate not replayed (budget): " + k)
+			continue
+		}
+		violations++
+		fmt.Printf("VIOLATION property=%s replay=%s\n", cr.ID, dir)
+		fmt.Printf("  obligation %s\n  case %s\n", v.Label, v.Case)
+		if v.Why != "" {
+			fmt.Printf("  %s\n", v.Why)
+		}
+	}
+	for _, l := range knownLines {
+		fmt.Println(l)
+	}
+	for i, s := range cr.inconcl {
+		if i >= 15 {
+			fmt.Printf("INCONCLUSIVE: ... and %d more\n", len(cr.inconcl)-i)
+			break
+		}
+		if len(s) > 700 {
+			s = s[:700] + "..."
+		}
+		fmt.Println("INCONCLUSIVE:", s)
+	}
+	cr.writeEvidence(violations, knownMatched)
+	nObl, nDis := 0, 0
+	for _, s := range cr.obl {
+		nObl += s.Proved + s.Failed + s.Unknown
+		nDis += s.Proved
+	}
+	fmt.Printf("%s %s: %d obligation instances, %d discharged, %d failed groups (%d known), %d violations, %d inconclusive notes, %d queries, solver %.1fs, wall %.1fs\n",
+		cr.ID, cr.Tier, nObl, nDis, len(order), len(knownLines), violations, len(cr.inconcl), cr.Pool.Queries, cr.Pool.SolverS, time.Since(cr.start).Seconds())
+	if violations > 0 {
+		return 1
+	}
+	if len(cr.inconcl) > 0 {
+		return 2
+	}
+	return 0
+}
+
+func (cr *CheckRun) writeEvidence(violations int, knownMatched map[string]int) {
+	nObl, nDis := 0, 0
+	labels := map[string]map[string]int{}
+	for l, s := range cr.obl {
+		nObl += s.Proved + s.Failed + s.Unknown
+		nDis += s.Proved
+		labels[l] = map[string]int{"proved": s.Proved, "failed": s.Failed, "unknown": s.Unknown}
+	}
+	var funcs []string
+	for f := range cr.Pool.Funcs {
+		funcs = append(funcs, f)
+	}
+	sort.Strings(funcs)
+	cov := map[string]interface{}{
+		"obligations":                   nObl,
+		"discharged":                    nDis,
+		"obligation_labels":             labels,
+		"functions_encoded":             funcs,
+		"functions_encoded_count":       len(funcs),
+		"jobs":                          cr.Pool.Jobs,
+		"paths":                         cr.Pool.Paths,
+		"ssa_instructions_executed":     cr.Pool.Steps,
+		"queries":                       cr.Pool.Queries,
+		"solver_time_s":                 cr.Pool.SolverS,
+		"solver":                        cr.Pool.solver + " (one process per worker, SMT-LIB2 over a pipe)",
+		"bounds":                        cr.bounds,
+		"samples":                       cr.samples,
+		"traces_validated_against_impl": cr.validated,
+		"known_findings_matched":        knownMatched,
+		"inconclusive":                  cr.inconcl,
+		"exhaustive":                    cr.exhaustive && len(cr.inconcl) == 0,
+		"explanation":                   cr.explanation,
+		"trusted_base":                  cr.trusted,
+		"evaluations":                   cr.Pool.Paths,
+		"distinct_nontrivial":           cr.Pool.Paths,
+		"rule":                          "one evaluation = one feasible symbolic path (distinct decision vector) of a harness job; every path is decided by solver queries over all values of its symbolic inputs",
+	}
+	if cr.states > 0 {
+		cov["states"] = cr.states
+		cov["transitions"] = cr.trans
+	}
+	for k, v := range cr.extra {
+		cov[k] = v
+	}
+	if len(cr.samples) == 0 {
+		cov["samples"] = []interface{}{"(no sample recorded)"}
+	}
+	ev := map[string]interface{}{
+		"property_id": cr.ID,
+		"tier":        cr.Tier,
+		"seed":        cr.Seed,
+		"level":       cr.Level,
+		"coverage":    cov,
+		"assumptions": cr.assume,
+		"wall_s":      time.Since(cr.start).Seconds(),
+		"violations":  violations,
+	}
+	os.MkdirAll(filepath.Join(verifDir, "evidence"), 0o755)
+	b, _ := json.MarshalIndent(ev, "", " ")
+	os.WriteFile(filepath.Join(verifDir, "evidence", cr.ID+".json"), b, 0o644)
+}
+
+// ---- entry ----
+
+type checkDef struct {
+	level string
+	pkgs  []string // repo-relative package dirs to load
+	run   func(cr *CheckRun)
+}
+
+var checkDefs = map[string]*checkDef{}
+
+func cmdCheck(args []string) int {
+	if len(args) < 1 {
+		fmt.Fprintln(os.Stderr, "usage: gosx check <ID> [quick|thorough]")
+		return 2
+	}
+	id := args[0]
+	tier := "quick"
+	if len(args) > 1 {
+		tier = args[1]
+	}
+	if t := os.Getenv("VERIF_TIER"); t != "" && len(args) < 2 {
+		tier = t
+	}
+	seed, _ := strconv.Atoi(os.Getenv("VERIF_SEED"))
+	def := checkDefs[id]
+	if def == nil {
+		fmt.Fprintln(os.Stderr, "no check for", id)
+		return 2
+	}
+	start := time.Now()
+	ov, _, err := buildOverlay()
+	if err != nil {
+		fmt.Fprintln(os.Stderr, err)
+		return 2
+	}
+	var pats []string
+	for _, p := range def.pkgs {
+		pats = append(pats, "./"+p)
+	}
+	P, err := LoadProgram(repoDir, ov, pats)
+	if err != nil {
+		fmt.Fprintln(os.Stderr, "load:", err)
+		fmt.Printf("INCONCLUSIVE: /repo does not load with the harness overlay: %v\n", err)
+		return 2
+	}
+	workers := runtime.NumCPU()
+	if w, err := strconv.Atoi(os.Getenv("GOSX_WORKERS")); err == nil && w > 0 {
+		workers = w
+	}
+	solver := envOr("GOSX_SOLVER", "z3")
+	cr := &CheckRun{ID: id, Tier: tier, Seed: seed, Level: def.level, P: P, Pool: NewPool(P, workers, solver),
+		obl: map[string]*oblStat{}, extra: map[string]interface{}{}, start: start, known: loadKnown(),
+		owner: func(string) bool { return true }, bounds: map[string]interface{}{}, replayBudget: 12}
+	cr.extra["load_and_ssa_build_s"] = time.Since(start).Seconds()
+	def.run(cr)
+	return cr.finish()
+}
